@@ -130,7 +130,9 @@ theorem enc_spec (M : List (Nat × Nat)) (nn : List Bool) (n j : Nat) (hM : MapO
           simp only [Val.update]
           rw [if_neg (by omega)]
           by_cases hm2 : (M.getD (u+1) (0, 0)).2 = 0
-          · simp [hm2]
+          · have hb2 : ((M.getD (u+1) (0, 0)).2 != 0) = false := by rw [hm2]; rfl
+            rw [hb2]
+            simp only [Bool.false_eq_true, if_false]
           · have : ((M.getD (u+1) (0, 0)).2 != 0) = true := bne_iff_ne.mpr hm2
             rw [this]; simp only [if_true]; rw [if_neg (by omega)]
       · simp only [Val.update]; split
@@ -150,11 +152,15 @@ theorem enc_spec (M : List (Nat × Nat)) (nn : List Bool) (n j : Nat) (hM : MapO
         · subst huv
           unfold proj
           have : ((M.getD (u+1) (0, 0)).2 != 0) = true := bne_iff_ne.mpr hm
-          simp only [this, if_true, Val.update]
-          rw [if_neg (by omega), if_pos rfl, if_pos rfl]
+          have hne12 : ¬ (M.getD (u+1) (0, 0)).1 = (M.getD (u+1) (0, 0)).2 := by omega
+          simp only [this, if_true, Val.update, hne12, if_false]
           rcases le_total (x u) 0 with h | h
-          · rw [max_eq_right h, max_eq_left (by linarith)]; ring
-          · rw [max_eq_left h, max_eq_right (by linarith)]; ring
+          · have h1 : max (x u) 0 = 0 := max_eq_right h
+            have h2 : max (-(x u)) 0 = -(x u) := max_eq_left (by linarith)
+            rw [h1, h2]; ring
+          · have h1 : max (x u) 0 = x u := max_eq_left h
+            have h2 : max (-(x u)) 0 = 0 := max_eq_right (by linarith)
+            rw [h1, h2]; ring
         · have hu' : u < v := by omega
           have hb := hbefore u hu'
           obtain ⟨g1, g2⟩ := hcolsu u hu'
@@ -163,7 +169,9 @@ theorem enc_spec (M : List (Nat × Nat)) (nn : List Bool) (n j : Nat) (hM : MapO
           simp only [Val.update]
           rw [if_neg (by omega), if_neg (by omega)]
           by_cases hm2' : (M.getD (u+1) (0, 0)).2 = 0
-          · simp [hm2']
+          · have hb2 : ((M.getD (u+1) (0, 0)).2 != 0) = false := by rw [hm2']; rfl
+            rw [hb2]
+            simp only [Bool.false_eq_true, if_false]
           · have : ((M.getD (u+1) (0, 0)).2 != 0) = true := bne_iff_ne.mpr hm2'
             rw [this]; simp only [if_true]; rw [if_neg (by omega), if_neg (by omega)]
       · simp only [Val.update]; split
@@ -173,8 +181,10 @@ theorem enc_spec (M : List (Nat × Nat)) (nn : List Bool) (n j : Nat) (hM : MapO
           · exact e4 col
 
 theorem dot_congr_lt (l : List Int) (x x' : Val) (h : ∀ u, u < l.length → x u = x' u) : dot l x = dot l x' := by
-  apply dot_congr_support
-  intro j
-  left; rfl
+  induction l generalizing x x' with
+  | nil => rfl
+  | cons a l ih =>
+    simp only [dot_cons]
+    rw [h 0 (by simp), ih x.tail x'.tail (fun u hu => h (u+1) (by simpa using hu))]
 
 end PPLV.Solver.Pend
